@@ -157,6 +157,10 @@ def build(op, seed, variant=0):
                 kw["r"] = 3
             if v % 4 == 3:
                 kw.update(I_vld=I, y_vld=rng.normal(size=len(I)))
+            if v % 8 == 5:
+                It = cover_idx(rng, n, 60)
+                yt = rng.normal(size=len(It))
+                kw.update(lamb=None, w=rng.uniform(0.5, 2, size=len(It)))       # unregularised weighted least squares
             args = [It if v % 2 else It.tolist(), yt if v % 2 else yt.tolist(), mk_tt(rng, n, 2)]
             return C(op, teneva.als, args, kw, mutable={"info"})
         if op == "anova":
@@ -168,6 +172,10 @@ def build(op, seed, variant=0):
         X = rng.uniform(-1, 1, size=(15, dd))
         yv = np.cos(X.sum(axis=1))
         if op == "als_func":
+            if v % 4 == 3:
+                X = rng.uniform(-1, 1, size=(80, dd))
+                yv = np.cos(X.sum(axis=1))
+                return C(op, teneva.als_func, [X, yv, mk_tt(rng, [nn] * dd, 2)], dict(a=-1., b=1., nswp=2, e=None, info={}, lamb=None), mutable={"info"})
             return C(op, teneva.als_func, [X, yv, mk_tt(rng, [nn] * dd, 2)], dict(a=-1., b=1., nswp=2, e=None, info={}, lamb=0.01), mutable={"info"})
         if op == "anova_func":
             return C(op, teneva.anova_func, [X, yv, nn], dict(a=-1., b=1., lamb=1e-5, e=[1e-8, None][v % 2]))
@@ -313,6 +321,11 @@ def build(op, seed, variant=0):
         T = mk_tt(rng, n, 2, nonneg=(op == "sample"))
         if op == "sample":
             return C(op, teneva.sample, [T], dict(m=1 + v % 7, seed=int(seed % 1000)), seed_kw="seed")
+        if v % 6 == 5:
+            # sharply peaked rank-1 tensor and m close to the effective support: the first batch has too few distinct rows,
+            # so the documented retry with a doubled m_fact is taken
+            c = np.array([1., 0.3, 0.1, 0.03]).reshape(1, 4, 1)
+            return C(op, teneva.sample_square, [[c.copy() for _ in range(4)]], dict(m=20, unique=True, seed=int(seed % 1000)), seed_kw="seed")
         return C(op, teneva.sample_square, [T], dict(m=1 + v % 4, unique=bool(v % 2), seed=int(seed % 1000)), seed_kw="seed")
     if op in ("sample_lhs", "sample_rand", "sample_tt"):
         nn = [n, np.array(n)][v % 2]
